@@ -7,6 +7,7 @@ package main
 
 import (
 	"context"
+	"encoding/json"
 	"fmt"
 	"math/big"
 	"math/rand"
@@ -77,6 +78,30 @@ func thirdFromLast(cidr string) string {
 		return ""
 	}
 	return a.String()
+}
+
+// c12JudgeGet: the configuration the daemon returns for the same sandbox on a status query (CNI CHECK / DEL
+// read it) is judged like the ADD reply and must equal it.
+func c12JudgeGet(r *monitor.Result, mode string, svc *daemon.VerifService, add *rpc.AllocIPReply, rep map[string]any) {
+	ctx, cancel := context.WithTimeout(context.Background(), 3*time.Second)
+	defer cancel()
+	got, err := svc.GetIPInfo(ctx, &rpc.GetInfoRequest{K8SPodName: "p", K8SPodNamespace: "ns", K8SPodInfraContainerId: "c0"})
+	r.Count("status_query_replies_judged", 1)
+	if err != nil || got == nil {
+		r.Violate("C12.status-query-differs", mode+"/error", fmt.Sprintf("status query for the sandbox that was just added failed: %v", err), rep)
+		return
+	}
+	c12Judge(r, mode+"/status-query", &rpc.AllocIPReply{NetConfs: got.NetConfs}, rep)
+	a, _ := json.Marshal(add.NetConfs)
+	g, _ := json.Marshal(got.NetConfs)
+	if string(a) != string(g) {
+		rep2 := map[string]any{}
+		for k, v := range rep {
+			rep2[k] = v
+		}
+		rep2["status_query_netconfs"] = got.NetConfs
+		r.Violate("C12.status-query-differs", mode, "the configuration returned by the status query differs from the ADD reply", rep2)
+	}
 }
 
 // c12Judge checks one successful AllocIP reply.
@@ -279,6 +304,7 @@ func c12CRD(c *ctxT, rng *rand.Rand, idx int) {
 	}
 	rep["netconfs"] = reply.NetConfs
 	c12Judge(r, "crd", reply, rep)
+	c12JudgeGet(r, "crd", svc, reply, rep)
 	// the reply must carry exactly the bound addresses
 	g4, g6, _ := addrsOf(reply.NetConfs)
 	var w4, w6 string
@@ -389,6 +415,7 @@ func c12PodENI(c *ctxT, rng *rand.Rand, idx int) {
 		return
 	}
 	c12Judge(r, "podeni", reply, rep)
+	c12JudgeGet(r, "podeni", svc, reply, rep)
 	if len(reply.NetConfs) != nIf {
 		r.Violate("C12.reply-differs-from-record", "podeni/interfaces", fmt.Sprintf("%d interfaces in the reply, the PodENI has %d", len(reply.NetConfs), nIf), rep)
 	}
